@@ -21,7 +21,7 @@ func directedConfig(rng *rand.Rand, cfg qsim.Config) qsim.Config {
 	}
 	for try := 0; try < 50; try++ {
 		h := specqbft.Height(rng.Intn(4 * n))
-		for r := 2; r <= 4; r++ {
+		for r := 1 + rng.Intn(2); r <= 4; r++ {
 			if isByz[int(qsim.Leader(n, h, specqbft.Round(r)))-1] {
 				cfg.Height = h
 				try = 1000
@@ -307,4 +307,76 @@ func SplitPrepare(cl *qsim.Cluster, track func()) bool {
 	cl.DropWhere(anyF)
 	cl.Act("split-prepare done: n%d prepared on %s in round 1, the other correct operators on %s in round 2", a.ID, v[:2], vp[:2])
 	return true
+}
+
+// SplitVote is a directed strategy: in the first Byzantine-led round (earlier rounds are lost) the Byzantine leader
+// equivocates - value v to one part of the correct operators (f+1 of them), value v' to the rest - with a legitimate
+// justification where one is needed, and all Byzantine operators prepare and commit v towards the first part and v' towards
+// the second. Quorum intersection must let at most one side decide.
+func SplitVote(cl *qsim.Cluster, track func()) string {
+	n, h := cl.Cfg.N, cl.Cfg.Height
+	byz, hon := cl.ByzNodes(), cl.Honest()
+	if len(byz) == 0 || len(hon) < 2 {
+		return ""
+	}
+	var rB specqbft.Round
+	var b *qsim.Node
+	for r := specqbft.Round(1); r <= 4 && b == nil; r++ {
+		if nd := cl.Nodes[qsim.Leader(n, h, r)-1]; nd.Byz {
+			rB, b = r, nd
+		}
+	}
+	if b == nil {
+		return ""
+	}
+	isT := func(t specqbft.MessageType) func(f *qsim.Flight) bool {
+		return func(f *qsim.Flight) bool { return f.Msg.Message.MsgType == t && len(f.Msg.Signers) == 1 }
+	}
+	anyF := func(*qsim.Flight) bool { return true }
+	for r := specqbft.Round(1); r < rB; r++ { // lost rounds
+		cl.DropWhere(anyF)
+		for _, x := range hon {
+			if st := x.Inst(); st != nil && !st.Decided && st.Round == r {
+				_ = cl.FireTimeoutFor(x, h, r)
+				track()
+			}
+		}
+		for _, z := range byz {
+			cl.ByzSendTo(z, cl.MkRoundChange(z, r+1, false), "round-change", hon)
+		}
+		cl.DeliverWhere(isT(specqbft.RoundChangeMsgType), track)
+	}
+	cl.DropWhere(isT(specqbft.ProposalMsgType))
+	k := cl.F + 1 + cl.Rng.Intn(2) // size of the first part: f+1 (or f+2: then the second part is even further from a quorum)
+	if k > len(hon)-1 {
+		k = len(hon) - 1
+	}
+	perm := cl.Rng.Perm(len(hon))
+	var h1, h2 []*qsim.Node
+	for i, pi := range perm {
+		if i < k {
+			h1 = append(h1, hon[pi])
+		} else {
+			h2 = append(h2, hon[pi])
+		}
+	}
+	v, vp := cl.Values[0], cl.Values[1]
+	var rcs []*specqbft.SignedMessage
+	if rB > 1 {
+		rcs = qsim.UniqueBySigner(cl.SeenOf(specqbft.RoundChangeMsgType, rB), func(m *specqbft.SignedMessage) bool { return !m.Message.RoundChangePrepared() })
+	}
+	cl.ByzSendTo(b, cl.MkProposal(b, rB, v, rcs, nil), "split proposal v", h1)
+	cl.ByzSendTo(b, cl.MkProposal(b, rB, vp, rcs, nil), "split proposal v'", h2)
+	cl.DeliverWhere(isT(specqbft.ProposalMsgType), track)
+	for _, z := range byz {
+		cl.ByzSendTo(z, cl.MkSimple(z, specqbft.PrepareMsgType, rB, qsim.Root(v)), "prepare v", h1)
+		cl.ByzSendTo(z, cl.MkSimple(z, specqbft.PrepareMsgType, rB, qsim.Root(vp)), "prepare v'", h2)
+	}
+	cl.DeliverWhere(isT(specqbft.PrepareMsgType), track)
+	for _, z := range byz {
+		cl.ByzSendTo(z, cl.MkSimple(z, specqbft.CommitMsgType, rB, qsim.Root(v)), "commit v", h1)
+		cl.ByzSendTo(z, cl.MkSimple(z, specqbft.CommitMsgType, rB, qsim.Root(vp)), "commit v'", h2)
+	}
+	cl.DeliverWhere(isT(specqbft.CommitMsgType), track)
+	return fmt.Sprintf("split-vote(round %d, parts %d/%d)", rB, len(h1), len(h2))
 }
